@@ -285,6 +285,7 @@ def c19_tweak(rng, scn):
             o["payload"] = nj
             o["argshape"] = rng.choice(["none", "empty", "one", "many", "nested"])
             o["kwshape"] = rng.choice(["none", "empty", "one", "many", "reserved"])
+            o["hkind"] = rng.choice(["plain", "plain", "partial_kw", "partial_pos"])
             o["tags"] = sorted(rng.sample(range(1, 5), rng.randint(0, 3)))
     ops = []
     for o in scn["ops"]:
